@@ -5,3 +5,4 @@ import PncProofs.SigmaLemmas
 import PncProofs.C17
 import PncProofs.Val2idxLemmas
 import PncProofs.C16
+import PncProofs.C15
